@@ -17,9 +17,17 @@
    255 / 32767 / 65535 classes, texts of more than 65535 characters; lines: random runs, all blank, one symbol from the first to the
    last frame, single-frame runs.  The arg-max path is recorded run-length encoded and TLC computes the expected text from the
    runs (Greedy_Trace, WideCollapse); Python only expands the runs into the tensor.
+6. Element types and magnitudes (round 9, field "raw", regimes): the statement is about the arg-max symbols of the score tensor AS
+   GIVEN.  Every case also hands each line of the tensor itself (its own element type, the frames x symbols view run_ocr returns)
+   to the stand-alone GreedyDecoder (max_unnormalization=inf as the repository's tests do, or the default for normalised rows),
+   and a share of the batches is rendered a second time in a regime real network output reaches: raw float32 / float64 scores
+   on which exp() overflows to inf for several classes of a frame or underflows to 0 for all of them, and normalised
+   log-probabilities (both element types) whose winner leads a LOWER-indexed class by one unit in the last place while the two
+   posteriors are equal.  The arg-max of the scores is unique in every frame; the expected text is still Collapse(paths) (TLC).
 """
 import itertools
 import random
+import warnings
 
 import numpy as np
 
@@ -33,8 +41,17 @@ ENGINE_BLANK = "​"
 CLAUSES = {1: "an exception was raised", 2: "greedy_decode_ctc text differs from the CTC collapse of the arg-max path",
            3: "GreedyDecoder text differs from the CTC collapse of the arg-max path",
            4: "PytorchEngineLineOCR.run_ocr text differs from the CTC collapse of the arg-max path",
-           5: "char_confidences.greedy_filtration text differs from the CTC collapse of the arg-max path"}
-SIGS = {1: "exception", 2: "engine-decoder", 3: "standalone-decoder", 4: "run_ocr", 5: "greedy-filtration"}
+           5: "char_confidences.greedy_filtration text differs from the CTC collapse of the arg-max path",
+           6: "GreedyDecoder text on the network output as given (own element type, not re-normalised) differs from the CTC collapse "
+              "of the arg-max path of these scores"}
+SIGS = {1: "exception", 2: "engine-decoder", 3: "standalone-decoder", 4: "run_ocr", 5: "greedy-filtration", 6: "standalone-decoder-raw"}
+# round 9: regimes of element type / magnitude in which a share of the batches is rendered a second time
+REGIMES = ["hi32", "lo32", "ulp32", "hi64", "lo64", "ulp64"]
+REGIME_EVERY = {"quick": 4, "thorough": 2}        # every k-th batch of a configuration is ALSO rendered in one of the regimes
+
+
+class _RenderError(Exception):
+    """the driver could not build the intended input (never a verdict about the code)"""
 
 
 def configs(tier):
@@ -85,6 +102,80 @@ def render(paths, nc, seed):
                 # returns the first maximal index, so the arg-max path is still the intended one
                 later = rng.choice(list(range(paths[i][f] + 1, nc)))
                 sc[i, later, f] = sc[i, paths[i][f], f]
+    return sc
+
+
+def _ulp_pair(p0, dt, steps, log=True):
+    """a < b adjacent values of element type dt from log(p0) upwards whose exponentials are EQUAL in dt (None if none within `steps`)"""
+    a = dt(np.log(p0)) if log else dt(p0)
+    for _ in range(steps):
+        b = np.nextafter(a, dt(0.0))
+        ex = np.exp(np.array([a, b], dtype=dt))
+        if ex[0] == ex[1]:
+            return a, b
+        a = b
+    return None
+
+
+def render_regime(paths, nc, seed, regime):
+    """score tensor N x C x T, float32 (regime *32) or float64 (*64), whose arg-max in frame f of line n is paths[n][f] - unique,
+    margin >= 0.5 except in the ulp frames:
+    hi   raw scores up to 990: exp() overflows to inf for the winner and for most other classes of a frame
+    lo   raw scores down to -999: exp() underflows to 0 for every class of a frame
+    ulp  normalised log-probabilities; where the intended class is not the first one, most frames give a LOWER-indexed class the
+         next representable value below the winner's, chosen such that the two posteriors are equal in the element type
+    a quarter of the frames of hi / lo is an ordinary frame (as render())"""
+    rng = random.Random(seed * 13 + 5)
+    dt = np.float32 if regime.endswith("32") else np.float64
+    n, t = len(paths), len(paths[0])
+    kind = regime[:-2]
+    over, under = (89.0, -105.0) if dt is np.float32 else (711.0, -750.0)
+    sc = np.empty((n, nc, t), dtype=dt)
+    for i in range(n):
+        for f in range(t):
+            k = paths[i][f]
+            if kind == "ulp":
+                pair = None
+                if k >= 1 and rng.random() < 0.7:
+                    if nc == 2:     # no third class to take the rest: both posteriors within a few units in the last place of 0.5
+                        a0 = dt(np.log(0.5))
+                        for _ in range(rng.randint(1, 6)):
+                            a0 = np.nextafter(a0, dt(-9.0))
+                        pair = _ulp_pair(a0, dt, 12, log=False)
+                    else:
+                        pair = _ulp_pair(rng.uniform(0.37, 0.49), dt, 3000)
+                if pair is not None:
+                    a, b = pair
+                    j = rng.randrange(k)
+                    rest = [c for c in range(nc) if c not in (j, k)]
+                    mass = 1.0 - float(np.exp(np.float64(a))) - float(np.exp(np.float64(b)))
+                    if rest and mass <= 1e-9:
+                        pair = None
+                    else:
+                        w = [rng.uniform(0.2, 1.0) for _ in rest]
+                        for c, wc in zip(rest, w):
+                            sc[i, c, f] = np.log(mass * wc / sum(w))
+                        sc[i, j, f], sc[i, k, f] = a, b
+                if pair is None:        # ordinary normalised frame, clear margin
+                    top = rng.uniform(-2.0, 3.0)
+                    row = np.array([top - rng.uniform(0.5, 4.0) for _ in range(nc)], dtype=np.float64)
+                    row[k] = top
+                    sc[i, :, f] = row - np.log(np.sum(np.exp(row - top))) - top
+                continue
+            mode = kind if rng.random() < 0.75 else "plain"
+            if mode == "hi":
+                top = rng.uniform(over + 4.0, 990.0)
+                for c in range(nc):
+                    sc[i, c, f] = rng.uniform(over, top - 0.5) if rng.random() < 0.75 else rng.uniform(-60.0, 60.0)
+            elif mode == "lo":
+                top = rng.uniform(-990.0, under)
+                for c in range(nc):
+                    sc[i, c, f] = rng.uniform(-999.0, top - 0.5)
+            else:
+                top = rng.uniform(-2.0, 3.0) * 5.0
+                for c in range(nc):
+                    sc[i, c, f] = top - rng.uniform(0.5, 4.0) * 5.0
+            sc[i, k, f] = top
     return sc
 
 
@@ -161,8 +252,9 @@ def _table(letters, persistent):
     return _PERSISTENT_TABLE
 
 
-def _decode_all(sc, chars, letters, gd, e, inv, rec):
-    """the four greedy transcriptions of the score tensor sc (N x C x T, float32), as class indices"""
+def _decode_all(sc, chars, letters, gd, e, inv, rec, regime="plain", want=None):
+    """the greedy transcriptions of the score tensor sc (N x C x T, float32 or float64), as class indices.  want: the arg-max
+    path of sc - inputs DERIVED from sc for functions that need log-probabilities / posteriors must have the same one"""
     import torch
     from pero_ocr.ocr_engine.pytorch_ocr_engine import greedy_decode_ctc
     from pero_ocr.decoding.decoders import BLANK_SYMBOL
@@ -174,15 +266,38 @@ def _decode_all(sc, chars, letters, gd, e, inv, rec):
     # stand-alone decoder on the normalised log-probabilities of each line (frames x symbols)
     alone = []
     for i in range(n):
-        lp = torch.log_softmax(torch.from_numpy(sc[i].T.astype(np.float64).copy()), dim=1).numpy()
+        if regime.startswith("ulp"):      # already normalised log-probabilities: widened exactly, not re-normalised
+            lp = sc[i].T.astype(np.float64).copy()
+        else:
+            lp = torch.log_softmax(torch.from_numpy(sc[i].T.astype(np.float64).copy()), dim=1).numpy()
+        if want is not None and not (lp.argmax(axis=1) == want[i]).all():
+            raise _RenderError("log-softmax of the rendered scores has another arg-max path")
         txt = gd(lp).best_hyp().replace(BLANK_SYMBOL, ENGINE_BLANK)
         alone.append(inv(txt))
     rec["alone"] = alone
+    # stand-alone decoder on the network output AS GIVEN: line i of the tensor in its own element type, the frames x symbols view
+    # run_ocr hands out; raw scores are not normalised (max_unnormalization=inf, as the repository's tests call the decoders),
+    # the ulp regimes are normalised log-probabilities and half of them go through the default normalisation check
+    raw = []
+    for i in range(n):
+        kw = {} if regime.startswith("ulp") and (n + t + i) % 2 == 0 else {"max_unnormalization": np.inf}
+        with warnings.catch_warnings():
+            warnings.simplefilter("ignore")          # numpy reports the overflow of exp() in the normalisation check
+            txt = gd(sc[i].T, **kw).best_hyp().replace(BLANK_SYMBOL, ENGINE_BLANK)
+        raw.append(inv(txt))
+    rec["raw"] = raw
     # the third greedy transcription of the library (pero_ocr/char_confidences.py, per-character confidences for a line):
     # posteriors frames x symbols, blank last
     filt = []
     for i in range(n):
         pr = torch.softmax(torch.from_numpy(sc[i].T.astype(np.float64).copy()), dim=1).numpy()
+        if want is not None and not (pr.argmax(axis=1) == want[i]).all():
+            if regime != "ulp64":
+                raise _RenderError("softmax of the rendered scores has another arg-max path")
+            # float64 posteriors cannot represent a lead of one float64 unit in the last place: the function is not called
+            rec["nofilt"] = True
+            filt = []
+            break
         filt.append(inv(greedy_filtration(pr, chars)[0]))
     rec["filt"] = filt
     # the engine itself with a stub network (the network output IS the score tensor)
@@ -247,7 +362,8 @@ def _prelude(nc, seed, chars_persistent, gd_of, e, fail):
 
 
 def _decode_one(item):
-    paths, seed = item
+    paths, seed = item[0], item[1]
+    regime = item[2] if len(item) > 2 else "plain"
     nc = _CFG["C"]
     _single_thread()
     # the character table varies from call to call (rotated alphabet), either as a fresh list or as ONE long-lived list object
@@ -264,8 +380,8 @@ def _decode_one(item):
         if tuple(ls) not in case_objs:
             case_objs[tuple(ls)] = _standalone(ls, True)
         return case_objs[tuple(ls)]
-    rec = {"kind": "batch", "paths": [list(p) for p in paths], "outcome": "ok", "eng": [], "alone": [], "ocr": [], "filt": [],
-           "logits_same": True, "hist": 0}
+    rec = {"kind": "batch", "paths": [list(p) for p in paths], "outcome": "ok", "eng": [], "alone": [], "ocr": [], "filt": [], "raw": [],
+           "logits_same": True, "hist": 0, "regime": regime, "nofilt": False}
     try:
         e = _engine([], fresh)
         if seed % 5 == 0:
@@ -273,9 +389,17 @@ def _decode_one(item):
             _prelude(nc, seed, persistent, gd_of, e, seed % 10 == 0)
         chars = _table(letters, persistent)
         e.characters = chars
-        sc = render(paths, nc, seed)
-        assert (sc.argmax(axis=1) == np.array(paths)).all()
-        _decode_all(sc, chars, letters, gd_of(letters), e, lambda x: _inverse(x, chars), rec)
+        want = np.array(paths)
+        if regime == "plain":
+            sc = render(paths, nc, seed)
+            assert (sc.argmax(axis=1) == want).all()
+        else:
+            sc = render_regime(paths, nc, seed, regime)
+            if not (sc.argmax(axis=1) == want).all() or not np.isfinite(sc).all() or np.abs(sc).max() >= 1000.0:
+                raise _RenderError("rendered scores do not have the intended arg-max path")
+        _decode_all(sc, chars, letters, gd_of(letters), e, lambda x: _inverse(x, chars), rec, regime, want)
+    except _RenderError as ex:   # the driver's own fault: machinery failure in the parent, never a verdict
+        rec["outcome"] = "harness:" + str(ex)
     except Exception as ex:      # part of the observation
         rec["outcome"] = "exception:" + type(ex).__name__
     return rec
@@ -350,7 +474,7 @@ def run_wide(case):
     _single_thread()
     syms, ends = _wide_runs(case)
     rec = {"kind": "wide", "nc": nc, "T": case["T"], "syms": syms, "ends": ends, "outcome": "ok", "eng": [], "alone": [], "ocr": [],
-           "filt": [], "logits_same": True, "seed": seed}
+           "filt": [], "raw": [], "logits_same": True, "seed": seed}
     try:
         paths = np.stack([np.repeat(np.array(s, dtype=np.int64), np.diff([0] + e)) for s, e in zip(syms, ends)])
         letters = _alphabet(nc, seed % 3)
@@ -430,6 +554,11 @@ def consts_of(c, mut="none"):
 
 
 def judge(ctx, c, traces):
+    from ..core import MachineryFailure
+    bad = [tr for tr in traces if tr["outcome"].startswith("harness:")]
+    if bad:
+        raise MachineryFailure("C04 driver could not render %d case(s), first: regime=%s paths=%s: %s" % (
+            len(bad), bad[0].get("regime"), bad[0]["paths"], bad[0]["outcome"]))
     acc, rej = ctx.validate("Greedy_Trace", traces, constants=consts_of(c), shards=min(8, max(1, len(traces) // 400)),
                             label="Greedy_Trace " + _lab(c))
     blank = c["C"] - 1
@@ -437,16 +566,19 @@ def judge(ctx, c, traces):
         # non-trivial: some line has a repeat split by a blank or an adjacent repeat of a non-blank
         nt = any(any(p[i] == p[i + 1] != blank for i in range(len(p) - 1)) or
                  any(p[i] == p[i + 2] != blank and p[i + 1] == blank for i in range(len(p) - 2)) for p in tr["paths"])
-        ctx.count(1, (_lab(c), tuple(map(tuple, tr["paths"]))) if nt else None)
+        ctx.count(1, (_lab(c), tuple(map(tuple, tr["paths"])), tr.get("regime", "plain")) if nt else None)
     ctx.sample({"config": _lab(c), "trace": traces[(2 * len(traces)) // 3]}, limit=5)
     changed = [tr for tr in traces if not tr.get("logits_same", True)]
     if changed:
         ctx.model_drift("run_ocr returns logits that are not the permuted network output", len(changed), {"paths": changed[0]["paths"]})
     for idx, clause in rej:
         tr = traces[idx]
-        ctx.violation({"cfg": c, "trace": tr, "seed": tr.get("seed", 0), "clause": clause}, SIGS.get(clause, "clause%d" % clause),
-                      "%s; C=%d (blank=%d) arg-max paths=%s -> engine=%s stand-alone=%s run_ocr=%s greedy_filtration=%s outcome=%s" % (
-                          CLAUSES.get(clause, "?"), c["C"], blank, tr["paths"], tr["eng"], tr["alone"], tr["ocr"], tr.get("filt"), tr["outcome"]))
+        ctx.violation({"cfg": c, "trace": tr, "seed": tr.get("seed", 0), "clause": clause, "regime": tr.get("regime", "plain")},
+                      SIGS.get(clause, "clause%d" % clause),
+                      "%s; C=%d (blank=%d) arg-max paths=%s (scores rendered in regime %s) -> engine=%s stand-alone=%s run_ocr=%s "
+                      "greedy_filtration=%s stand-alone on the scores as given=%s outcome=%s" % (
+                          CLAUSES.get(clause, "?"), c["C"], blank, tr["paths"], tr.get("regime", "plain"), tr["eng"], tr["alone"], tr["ocr"],
+                          tr.get("filt"), tr.get("raw"), tr["outcome"]))
     return acc, rej
 
 
@@ -454,7 +586,11 @@ def run(ctx):
     ctx.rule = ("every batch of N lines x T frames of per-frame arg-max symbols over C classes (= the TLC initial states), rendered as a "
                 "score tensor with a unique arg-max per frame (seeded margins >= 0.5, magnitudes up to 160); non-trivial = a line with "
                 "an adjacent repeat of a non-blank or a repeat split by one blank")
-    ctx.assume("the arg-max of every frame is unique with margin >= 0.5 (ties in the network output are outside the statement)",
+    ctx.rule += ("; every %d-th batch once more as float32 / float64 scores on which exp() overflows (up to 990) or underflows (down to "
+                 "-999), or as normalised log-probabilities whose winner leads a lower-indexed class by one unit in the last place; "
+                 "every line of every tensor also decoded by GreedyDecoder as given (not re-normalised)" % REGIME_EVERY.get(ctx.tier, 4))
+    ctx.assume("the arg-max of every frame is unique (margin >= 0.5, or one unit in the last place in the ulp regimes; an exact tie only "
+               "with a later class: first-index rule)",
                "scores stay within (-1000, 1000), the range in which the forced prepended frame of greedy_decode_ctc dominates",
                "only the 3-D (N x C x T) branch of greedy_decode_ctc is exercised",
                "decoder objects, the engine object and a character-table list may be re-used from call to call (also after a call that "
@@ -463,6 +599,7 @@ def run(ctx):
                  "paths given as runs" % len(wide_cases(ctx.tier, ctx.seed)))
     ctx.exhaustive = True
     first = True
+    regime_cases = 0
     for c in configs(ctx.tier):
         ctx.tlc("Greedy", constants=consts_of(c), invariants=INVS, workers=4, timeout=1800, label="Greedy " + _lab(c))
         if first:
@@ -473,6 +610,10 @@ def run(ctx):
         if not complete:
             ctx.exhaustive = False
         items = [(b, (ctx.seed % 1000) * 1000000 + i) for i, b in enumerate(bs)]
+        # round 9: every k-th batch once more, rendered in one of the element-type / magnitude regimes (cycling)
+        every = REGIME_EVERY.get(ctx.tier, 4)
+        items += [(b, (ctx.seed % 1000) * 1000000 + i, REGIMES[(i // every) % len(REGIMES)]) for i, b in enumerate(bs) if i % every == 1]
+        regime_cases += sum(1 for it in items if len(it) > 2)
         traces = execute(c, items)
         for tr, it in zip(traces, items):
             tr["seed"] = it[1]
@@ -484,6 +625,12 @@ def run(ctx):
                 tr["eng"][0] = tr["eng"][0][:-1]        # the engine's text loses its last character
                 return tr
             ctx.selftest_corrupt("Greedy_Trace", good, corrupt, constants=consts_of(c))
+            good_raw = next(tr for tr in traces if tr["regime"] in ("hi32", "ulp64") and len(tr["raw"][0]) >= 1)
+
+            def corrupt_raw(tr):
+                tr["raw"][0] = [0] + tr["raw"][0][1:] if tr["raw"][0][0] != 0 else [1] + tr["raw"][0][1:]   # another first character
+                return tr
+            ctx.selftest_corrupt("Greedy_Trace", good_raw, corrupt_raw, constants=consts_of(c))
         first = False
     # scale: sampled tensors beyond the sizes TLC enumerates, on the long-lived objects of this process
     wcases = wide_cases(ctx.tier, ctx.seed)
@@ -491,6 +638,7 @@ def run(ctx):
     if not judge_wide(ctx, wcases, wtraces, selftest=True):
         good = next(tr for tr in wtraces if len(tr["syms"]) >= 2 and tr["T"] > 1024 and len(tr["syms"][0]) < 3000)
         ctx.sample({"config": "wide", "trace": {k: (_brief(v, 6) if isinstance(v, list) else v) for k, v in good.items()}}, limit=6)
+    ctx.notes["regime_cases"] = regime_cases
     ctx.notes["wide_cases"] = [[wc["nc"], len(wc["lines"]), wc["T"]] for wc in wcases]
     ctx.notes["explanation"] = ("TLC exhaustive on Greedy per (C, MaxT, N) with invariants %s; every batch decoded by greedy_decode_ctc, "
                                 "GreedyDecoder and a stub-network PytorchEngineLineOCR.run_ocr; texts mapped back through the character "
@@ -505,6 +653,6 @@ def replay(ctx, case):
         return
     c = case["cfg"]
     tr = case["trace"]
-    traces = execute(c, [(tuple(tuple(p) for p in tr["paths"]), case.get("seed", 0))])
+    traces = execute(c, [(tuple(tuple(p) for p in tr["paths"]), case.get("seed", 0), case.get("regime", tr.get("regime", "plain")))])
     traces[0]["seed"] = case.get("seed", 0)
     judge(ctx, c, traces)
